@@ -204,8 +204,10 @@ impl SimHost {
 
 /// Console output of a simulated command: chunks as the pipe would deliver
 /// them, and the bytes n2 is expected to show (showIncludes lines removed).
-pub fn out_plan(r: &mut Rng, sid: usize, msvc: bool, hidden: &[String]) -> (Vec<Vec<u8>>, Vec<u8>) {
+pub fn out_plan(r: &mut Rng, sid: usize, msvc: bool, hidden: &[String]) -> (Vec<Vec<u8>>, Vec<u8>, Vec<String>) {
     let mut lines: Vec<(Vec<u8>, bool)> = Vec::new();
+    // (line bytes, name) of the Note lines, to recover the order in which n2 sees the names
+    let mut note_names: Vec<(Vec<u8>, String)> = Vec::new();
     let kind = r.below(100);
     if kind < 35 {
     } else if kind < 60 {
@@ -256,6 +258,9 @@ pub fn out_plan(r: &mut Rng, sid: usize, msvc: bool, hidden: &[String]) -> (Vec<
         if many {
             // big shapes: plain lines in front, no quadratic inserts
             let mut pre: Vec<(Vec<u8>, bool)> = hidden.iter().map(|h| (format!("Note: including file: {}\n", h).into_bytes(), true)).collect();
+            for h in hidden {
+                note_names.push((format!("Note: including file: {}\n", h).into_bytes(), h.clone()));
+            }
             pre.extend(lines.drain(..));
             lines = pre;
         }
@@ -275,6 +280,7 @@ pub fn out_plan(r: &mut Rng, sid: usize, msvc: bool, hidden: &[String]) -> (Vec<
                 l.push(b'\r');
             }
             l.push(b'\n');
+            note_names.push((l.clone(), h.clone()));
             lines.insert(pos, (l.clone(), true));
             if r.pct(10) {
                 // duplicates are legal
@@ -284,10 +290,13 @@ pub fn out_plan(r: &mut Rng, sid: usize, msvc: bool, hidden: &[String]) -> (Vec<
     }
     let mut raw = Vec::new();
     let mut expected = Vec::new();
+    let mut order: Vec<String> = Vec::new();
     for (l, note) in &lines {
         raw.extend_from_slice(l);
         if !note {
             expected.extend_from_slice(l);
+        } else if let Some((_, n)) = note_names.iter().find(|(b, _)| b == l) {
+            order.push(n.clone());
         }
     }
     let mut chunks: Vec<Vec<u8>> = Vec::new();
@@ -314,7 +323,7 @@ pub fn out_plan(r: &mut Rng, sid: usize, msvc: bool, hidden: &[String]) -> (Vec<
             }
         }
     }
-    (chunks, expected)
+    (chunks, expected, order)
 }
 
 fn depfile_text(r: &mut Rng, hidden: &[String]) -> String {
@@ -372,7 +381,12 @@ impl Host for SimHost {
         }
         if self.spec.explicit_f || sh.model.disk.manifest != "build.ninja" {
             argv.push("-f".into());
-            argv.push(sh.model.disk.manifest.clone());
+            let m = sh.model.disk.manifest.clone();
+            argv.push(match self.spec.f_spelling {
+                1 => format!("./{}", m),
+                2 => format!("zz/../{}", m),
+                _ => m,
+            });
         }
         argv.push("-j".into());
         argv.push(self.spec.j.to_string());
@@ -652,6 +666,35 @@ impl Host for SimHost {
         }
     }
 
+    fn on_check(&mut self, _bid: usize, desc: Option<&str>, cmdline: Option<&str>, deps: &[String]) {
+        let mut sh = self.sh.borrow_mut();
+        let sid = match sid_of_desc(desc).or_else(|| cmdline.and_then(step_id_of)) {
+            Some(s) => s,
+            None => return,
+        };
+        if cmdline.is_none() {
+            return;
+        }
+        let mem = sh.model.mem.clone();
+        if let Some(si) = mem.step_by_id(sid) {
+            if !sh.model.judgeable(&mem, si) || sh.model.orphan_cut.is_some() {
+                return;
+            }
+            let expected: Vec<String> = sh.model.rec_for(&mem, si).map(|r| r.deps.clone()).unwrap_or_default();
+            if expected.as_slice() != deps {
+                let d = format!(
+                    "s{}: its last successful run reported {:?} (after canonicalisation, without declared inputs), but n2 holds {:?} as its discovered dependencies",
+                    sid,
+                    &expected[..expected.len().min(8)],
+                    &deps[..deps.len().min(8)]
+                );
+                sh.viol.push(viol("C09", "remembered-deps-differ", d.clone()));
+                sh.viol.push(viol("C08", "loaded-deps-differ", d));
+            }
+            sh.stats.bump("probe.discovered_deps_compared");
+        }
+    }
+
     fn on_update(&mut self, c: [usize; 6], total: usize) {
         let mut sh = self.sh.borrow_mut();
         sh.finalize_pending();
@@ -817,7 +860,11 @@ impl SimHost {
             sh.stats.bump("probe.reported_dependency_missing");
         }
         reported.extend(miss);
-        let (chunks, expected) = out_plan(&mut r, sid, s.depmode == 2, &reported);
+        let (chunks, expected, note_order) = out_plan(&mut r, sid, s.depmode == 2, &reported);
+        if s.depmode == 2 {
+            // n2 learns the names in the order the notes appear in the output
+            reported = note_order;
+        }
         for c in &chunks {
             out(c);
         }
@@ -874,6 +921,14 @@ impl SimHost {
                 disk::write_with_dirs(o, c.as_bytes())?;
                 let t = sh.model.next_tick();
                 disk::set_mtime(o, t);
+            }
+        }
+        // Meson-like commands refresh one of their own (private) inputs while they run
+        if let Some(t) = &s.touches {
+            if disk::exists(t) {
+                let tk = sh.model.next_tick();
+                disk::set_mtime(t, tk);
+                sh.stats.bump("probe.command_touched_own_input");
             }
         }
         if s.depmode == 1 {
